@@ -9,7 +9,7 @@ ALL = ["C%02d" % i for i in range(1, 21)]
 def one(seed, checks):
     d = tempfile.mkdtemp(prefix="seedre-")
     try:
-        for x in ("src", "Cargo.toml", "Cargo.lock"):
+        for x in ("src", "Cargo.toml", "Cargo.lock", "README.md", "CHANGELOG.md"):
             s = os.path.join("/repo", x)
             shutil.copytree(s, os.path.join(d, x)) if os.path.isdir(s) else shutil.copy(s, os.path.join(d, x))
         p = subprocess.run(["patch", "-p1", "--no-backup-if-mismatch", "-i", os.path.join(VERIF, "seeded", seed, "patch.diff")], cwd=d, stdout=subprocess.PIPE, stderr=subprocess.STDOUT, text=True)
